@@ -209,11 +209,18 @@ class AsyncFIXConnection:
                     # Only add message if logout_message != ""
                     msg[FTag.Text] = logout_message
                 await self.send_msg(msg)
+                if self._connection_state <= ConnectionState.DISCONNECTED_BROKEN_CONN:
+                    # already disconnected (and reported) while the Logout() was written
+                    return
 
             self.log.info(f"Client disconnected, with state: {repr(disconn_state)}")
             if self._socket_writer:
-                self._socket_writer.close()
-                await self._socket_writer.wait_closed()
+                socket_writer = self._socket_writer
+                socket_writer.close()
+                await socket_writer.wait_closed()
+                if self._connection_state <= ConnectionState.DISCONNECTED_BROKEN_CONN:
+                    # same, while the socket was closing
+                    return
             self._socket_writer = None
             self._socket_reader = None
             await self._state_set(disconn_state)
